@@ -316,7 +316,10 @@ func (r *Run) finish() int {
 		}
 		ev := map[string]any{
 			"property_id": r.Prop, "tier": r.Tier, "seed": r.Seed, "level": r.Level,
-			"coverage": r.cov, "assumptions": assume, "wall_s": wall, "violations": len(r.viols),
+			"coverage": r.cov, "assumptions": assume, "wall_s": wall, "violations": unknown,
+		}
+		if n := len(r.viols) - unknown; n > 0 {
+			r.cov["known_findings_reported"] = n
 		}
 		if len(r.harnessE) > 0 {
 			r.cov["harness_errors"] = r.harnessE
